@@ -135,20 +135,125 @@ class Partial(Exception):
     which the python operation raises)."""
 
 
-PYDIV = z3.Function("pydiv", z3.IntSort(), z3.IntSort(), z3.IntSort())
-PYMOD = z3.Function("pymod", z3.IntSort(), z3.IntSort(), z3.IntSort())
-AXIOMS = {}      # id -> universally valid instance of the definition of pydiv/pymod
+_DM_CACHE = {}     # (id a, id b) -> (q, r, a, b): python's a // b and a % b for a symbolic divisor
+AXIOMS = _DM_CACHE  # (name kept for callers that only test emptiness)
 
 
 def _divmod_axiom(a, b):
-    """Python's floor division / modulo by a *symbolic* divisor are uninterpreted
-    functions constrained, per use, by their defining property (valid for b != 0)."""
-    q, r = PYDIV(a, b), PYMOD(a, b)
-    ax = z3.Implies(b != 0, z3.And(a == q * b + r,
-                                   z3.Implies(b > 0, z3.And(r >= 0, r < b)),
-                                   z3.Implies(b < 0, z3.And(r <= 0, r > b))))
-    AXIOMS[ax.get_id()] = ax
-    return q, r
+    """Python's floor division / modulo by a *symbolic* divisor are fresh constants q, r
+    constrained by the defining property  a == q*b + r,  0 <= r < b  (b > 0)  /  b < r <= 0
+    (b < 0).  A conservative extension: q and r exist for every a and every b != 0.  Fresh
+    constants (not uninterpreted functions) and *unguarded* equalities are what z3's nonlinear
+    arithmetic needs; `axioms_for` therefore resolves the sign of b against the path condition."""
+    a = z3.simplify(a, som=True, sort_sums=True)
+    b = z3.simplify(b, som=True, sort_sums=True)
+    key = (a.get_id(), b.get_id())
+    if key not in _DM_CACHE:
+        _DM_CACHE[key] = (z3.Int(fresh_name("pydiv")), z3.Int(fresh_name("pymod")), a, b)
+    return _DM_CACHE[key][:2]
+
+
+_const_cache = {}
+
+
+def consts_of(e):
+    """names of the uninterpreted constants occurring in a z3 term"""
+    i = e.get_id()
+    if i in _const_cache:
+        return _const_cache[i]
+    out = set()
+    stack = [e]
+    seen = set()
+    while stack:
+        t = stack.pop()
+        ti = t.get_id()
+        if ti in seen:
+            continue
+        seen.add(ti)
+        if z3.is_quantifier(t):
+            stack.append(t.body())
+            continue
+        if z3.is_app(t):
+            if t.num_args() == 0 and t.decl().kind() == z3.Z3_OP_UNINTERPRETED:
+                out.add(t.decl().name())
+            else:
+                stack.extend(t.children())
+    _const_cache[i] = out
+    return out
+
+
+_quant_cache = {}
+
+
+def has_quantifier(e):
+    i = e.get_id()
+    if i in _quant_cache:
+        return _quant_cache[i]
+    res = False
+    stack = [e]
+    seen = set()
+    while stack:
+        t = stack.pop()
+        if t.get_id() in seen:
+            continue
+        seen.add(t.get_id())
+        if z3.is_quantifier(t):
+            res = True
+            break
+        stack.extend(t.children())
+    _quant_cache[i] = res
+    return res
+
+
+def axioms_for(formulas):
+    """The div/mod definitions relevant to `formulas` (transitively), each in the strongest
+    form the formulas allow: unguarded when the divisor's sign follows from them."""
+    if not _DM_CACHE:
+        return []
+    names = set()
+    for f in formulas:
+        if is_z3(f):
+            names |= consts_of(f)
+    chosen = []
+    pending = list(_DM_CACHE.values())
+    changed = True
+    while changed:
+        changed = False
+        rest = []
+        for ent in pending:
+            q, r, a, b = ent
+            if q.decl().name() in names or r.decl().name() in names:
+                chosen.append(ent)
+                names |= consts_of(a) | consts_of(b)
+                changed = True
+            else:
+                rest.append(ent)
+        pending = rest
+    if not chosen:
+        return []
+    out = []
+    # functional consistency (what an uninterpreted-function encoding would give for free)
+    for i in range(len(chosen)):
+        for j in range(i + 1, len(chosen)):
+            q1, r1, a1, b1 = chosen[i]
+            q2, r2, a2, b2 = chosen[j]
+            if b1.get_id() == b2.get_id():
+                out.append(z3.Implies(a1 == a2, z3.And(q1 == q2, r1 == r2)))
+    s = z3.Solver()
+    s.set("timeout", 300)
+    s.add(*[f for f in formulas if is_z3(f) and not has_quantifier(f)])
+    for q, r, a, b in chosen:
+        pos = s.check(z3.Not(b > 0)) == z3.unsat
+        neg = False if pos else (s.check(z3.Not(b < 0)) == z3.unsat)
+        if pos:
+            out.extend([a == q * b + r, r >= 0, r < b])
+        elif neg:
+            out.extend([a == q * b + r, r <= 0, r > b])
+        else:
+            out.append(z3.Implies(b != 0, a == q * b + r))
+            out.append(z3.Implies(b > 0, z3.And(r >= 0, r < b)))
+            out.append(z3.Implies(b < 0, z3.And(r <= 0, r > b)))
+    return out
 
 
 def py_floordiv_int(a, b):
